@@ -464,3 +464,90 @@ M('C12-twin-nested-with', 'C12', CONN,
   "        if force:\n            with self._write_lock:\n                self._write_packet(packet)",
   "        if force:\n            with self._write_lock:\n                with self._write_lock:\n                    self._write_packet(packet)",
   expect='silent')
+
+# ---------------------------------------------------------------- C15
+M('C15-rebreak-D7', 'C15', CONN,
+  "                data = stream.read(length - len(packet_data.get_writable()))\n                if len(data) < 1:\n                    raise EOFError(\"Unexpected end of message.\")\n                packet_data.send(data)",
+  "                packet_data.send(\n                    stream.read(length - len(packet_data.get_writable())))",
+  rule='R15.1')
+M('C15-emptiness-wrong-variable', 'C15', CONN,
+  "                if len(data) < 1:\n                    raise EOFError(\"Unexpected end of message.\")\n                packet_data.send(data)",
+  "                if length < 1:\n                    raise EOFError(\"Unexpected end of message.\")\n                packet_data.send(data)",
+  rule='R15.1')
+M('C15-break-on-empty', 'C15', CONN,
+  "                if len(data) < 1:\n                    raise EOFError(\"Unexpected end of message.\")\n                packet_data.send(data)",
+  "                if len(data) < 1:\n                    break\n                packet_data.send(data)", rule='R15.2')
+M('C15-continue-on-empty', 'C15', CONN,
+  "                if len(data) < 1:\n                    raise EOFError(\"Unexpected end of message.\")\n                packet_data.send(data)",
+  "                if len(data) < 1:\n                    continue\n                packet_data.send(data)", rule='R15.1')
+M('C15-varint-eof-ignored', 'C15', BASIC,
+  "            if len(byte) < 1:\n                raise EOFError(\"Unexpected end of message.\")\n\n            byte = ord(byte)",
+  "            if len(byte) < 1:\n                continue\n\n            byte = ord(byte)", rule='R15.1')
+M('C15-fallback-any-exception', 'C15', CONN, "        if isinstance(exc, EOFError):", "        if isinstance(exc, Exception):",
+  rule='R15.5')
+M('C15-wrapper-buffers', 'C15', ENC,
+  "    def read(self, length):\n        return self.decryptor.update(self.actual_file_object.read(length))",
+  "    def read(self, length):\n        data = b''\n        while len(data) < length:\n            data += self.decryptor.update(self.actual_file_object.read(length - len(data)))\n        return data",
+  rule='R15.4')
+M('C15-react-on-partial', 'C15', CONN,
+  "                packet = self.connection.reactor.read_packet(\n                    self.connection.file_object, timeout=read_timeout)\n                if not packet:\n                    break",
+  "                packet = self.connection.reactor.read_packet(\n                    self.connection.file_object, timeout=read_timeout)\n                if not packet:\n                    packet = packets.Packet()",
+  rule='R15.2')
+M('C15-retry-loop-in-handler', 'C15', CONN,
+  "    def handle_failure(self):\n        self.handle_proto_version(self.connection.default_proto_version)",
+  "    def handle_failure(self):\n        while True:\n            data = self.connection.file_object.read(1)\n            if self.connection.connected:\n                break\n        self.handle_proto_version(self.connection.default_proto_version)",
+  rule='R15.1')
+M('C15-twin-not-chunk', 'C15', CONN, "                if len(data) < 1:\n                    raise EOFError(\"Unexpected end of message.\")",
+  "                if not data:\n                    raise EOFError(\"Unexpected end of message.\")", expect='silent')
+M('C15-twin-rename', 'C15', CONN,
+  "                data = stream.read(length - len(packet_data.get_writable()))\n                if len(data) < 1:\n                    raise EOFError(\"Unexpected end of message.\")\n                packet_data.send(data)",
+  "                chunk = stream.read(length - len(packet_data.get_writable()))\n                if len(chunk) == 0:\n                    raise EOFError(\"Unexpected end of message.\")\n                packet_data.send(chunk)",
+  expect='silent')
+
+# ---------------------------------------------------------------- C16
+M('C16-thread-in-connect', 'C16', CONN,
+  "                self.reactor = PlayingStatusReactor(self)\n            self._start_network_thread()",
+  "                self.reactor = PlayingStatusReactor(self)\n            self.networking_thread = NetworkingThread(self)\n            self.networking_thread.start()",
+  rule='R16.1')
+M('C16-check-after-connect', 'C16', CONN,
+  "            self._check_connection()\n\n            self._connect()\n            self._handshake(next_state=STATE_STATUS)",
+  "            self._connect()\n            self._check_connection()\n            self._handshake(next_state=STATE_STATUS)",
+  rule='R16.3')
+M('C16-check-outside-lock', 'C16', CONN,
+  "        with self._write_lock:  # pylint: disable=not-context-manager\n            self._check_connection()\n\n            # It is important",
+  "        self._check_connection()\n        with self._write_lock:  # pylint: disable=not-context-manager\n\n            # It is important",
+  rule='R16.3')
+M('C16-join-removed', 'C16', CONN,
+  "                if self.previous_thread.is_alive():\n                    self.previous_thread.join()\n", "",
+  rule='R16.2')
+M('C16-promotion-after-run', 'C16', CONN,
+  "                with self.connection._write_lock:\n                    self.connection.networking_thread = self\n                    self.connection.new_networking_thread = None\n            self._run()",
+  "            self._run()\n            if self.previous_thread is not None:\n                with self.connection._write_lock:\n                    self.connection.networking_thread = self\n                    self.connection.new_networking_thread = None",
+  rule='R16.2')
+M('C16-refusal-conditions-differ', 'C16', CONN,
+  "        if self.networking_thread is not None and \\\n           not self.networking_thread.interrupt or \\\n           self.new_networking_thread is not None:\n            raise InvalidState('There is an existing connection.')",
+  "        if self.networking_thread is not None and \\\n           not self.networking_thread.interrupt:\n            raise InvalidState('There is an existing connection.')",
+  rule='R16.1')
+M('C16-rebreak-D8-init', 'C16', CONN, "        self.socket = None\n        self.file_object = None\n", "", rule='R16.4')
+M('C16-rebreak-D8-publication', 'C16', CONN,
+  "        sock = socket.socket(ai_faml, ai_type, ai_prot)\n        try:\n            sock.connect(ai_addr)\n            file_object = sock.makefile(\"rb\", 0)\n        except Exception:\n            sock.close()\n            raise\n        self.socket = sock\n        self.file_object = file_object",
+  "        self.socket = socket.socket(ai_faml, ai_type, ai_prot)\n        self.socket.connect(ai_addr)\n        self.file_object = self.socket.makefile(\"rb\", 0)",
+  rule='R16.4')
+M('C16-rebreak-D9', 'C16', CONN,
+  "            except IOError:\n                # The connection is already broken: nothing more can be sent.\n                pass\n            finally:",
+  "            finally:", rule='R16.5')
+M('C16-inner-loop-ignores-interrupt', 'C16', CONN,
+  "            while num_packets < 50 and not self.interrupt:", "            while num_packets < 50:", rule='R16.6')
+M('C16-disconnect-interrupts-old-thread', 'C16', CONN,
+  "                if self.new_networking_thread is not None:\n                    self.new_networking_thread.interrupt = True\n                elif self.networking_thread is not None:\n                    self.networking_thread.interrupt = True",
+  "                if self.networking_thread is not None:\n                    self.networking_thread.interrupt = True\n                elif self.new_networking_thread is not None:\n                    self.new_networking_thread.interrupt = True",
+  rule='R16.6')
+M('C16-slot-not-cleared', 'C16', CONN,
+  "        finally:\n            with self.connection._write_lock:\n                self.connection.networking_thread = None",
+  "        finally:\n            pass", rule='R16.2')
+M('C16-twin-reorder-init', 'C16', CONN, "        self.socket = None\n        self.file_object = None\n        self._outgoing_packet_queue = deque()\n",
+  "        self._outgoing_packet_queue = deque()\n        self.file_object = None\n        self.socket = None\n", expect='silent')
+M('C16-twin-demorgan', 'C16', CONN,
+  "        if self.networking_thread is not None and \\\n           not self.networking_thread.interrupt or \\\n           self.new_networking_thread is not None:\n            raise InvalidState('There is an existing connection.')",
+  "        if not ((self.networking_thread is None or\n                 self.networking_thread.interrupt) and\n                self.new_networking_thread is None):\n            raise InvalidState('There is an existing connection.')",
+  expect='silent')
